@@ -81,15 +81,17 @@ def compare_loaded(cl, got, exp):
 
 
 def run_once(argv, chooser=None, seed=0, getters=('short', 'long'), mode='standin', timeLimit=None, **kw):
-    """Fresh Solver, one solve under observation.  Returns dict."""
-    st, S = impl.construct_solver(argv)
-    r = {'construct': (st, S if st != 'ok' else None), 'events': [], 'exc': None, 'texts': {}, 'solver': None}
-    if st != 'ok':
-        return r
-    r['solver'] = S
+    """Fresh Solver, one solve under observation (the virtual clock, if any, is
+    already in place when the Solver is constructed).  Returns dict."""
     rec = observe.Recorder(mode=mode, chooser=chooser, seed=seed, **kw)
-    r['rec'] = rec
-    with observe.observing(rec, S):
+    r = {'construct': None, 'events': [], 'exc': None, 'texts': {}, 'solver': None, 'rec': rec}
+    with observe.observing(rec, None):
+        st, S = impl.construct_solver(argv)
+        r['construct'] = (st, S if st != 'ok' else None)
+        if st != 'ok':
+            return r
+        r['solver'] = S
+        rec.solver = S
         try:
             with impl.quiet():
                 if timeLimit is None:
